@@ -264,7 +264,8 @@ def check_merge(cx, facts, rep):
         for e in fw.events:
             if e.kind == 'exit' and e.how == 'continue':
                 at = facts.atoms(e.ctx, fw)
-                if not any((a[0] == 'cond' and 't == Trait::Into' in a[1]) or (a[0] == 'eq' and a[2] == ('path', 'Trait::Into') and a[3] is True) for a in at):
+                if not any((a[0] == 'cond' and 't == Trait::Into' in a[1]) or (a[0] == 'eq' and a[2] == ('path', 'Trait::Into') and a[3] is True)
+                           or (a[0] == 'cond' and '.is_ident("educe")' in a[1] and a[2] is False) for a in at):   # skipping a non-educe attribute
                     ok = False
     if ok:
         rep.ok('MERGE', where + '|type-level visits every #[educe] attribute and meta', {'attr_loop': es(attr_loop[0].entry['iter']), 'meta_loop': es(meta_loop[0].entry['iter'])[:60]})
